@@ -147,16 +147,24 @@ func c13Diamond() {
 			univ.SignV2(Ltip.State, &t, a)
 			return t
 		}
-		for _, order := range []string{"A-output-first", "B-output-first"} {
+		for _, order := range []string{"A-output-first", "B-output-first", "three-generations"} {
 			nn := node.New(u)
 			nn.CM.AddBlocks(u.Blocks(u.PathTo(k)))
 			var T types.V2Transaction
-			if order == "A-output-first" {
+			pooled := []types.V2Transaction{A, B}
+			switch order {
+			case "A-output-first":
 				T = mk(univ.Ephemeral(A, 1), univ.Ephemeral(B, 0))
-			} else {
+			case "B-output-first":
 				T = mk(univ.Ephemeral(B, 0), univ.Ephemeral(A, 1))
+			default:
+				// three pooled ancestors: A <- B <- C3, T spends an output of C3 and one of A
+				C3 := univ.V2Spend(Ltip.State, a, univ.Ephemeral(B, 0), a.Addr, univ.SC(3), univ.SC(1))
+				pooled = append(pooled, C3)
+				T = mk(univ.Ephemeral(C3, 0), univ.Ephemeral(A, 1))
 			}
-			if _, err := nn.CM.AddV2PoolTransactions(tipIdx, []types.V2Transaction{A, B, T}); err != nil {
+			pooled = append(pooled, T)
+			if _, err := nn.CM.AddV2PoolTransactions(tipIdx, pooled); err != nil {
 				run.Violate("c13:diamond-setup", fmt.Sprintf("[%s] the diamond set is refused by the pool: %v", reg, err), nil)
 				continue
 			}
@@ -172,12 +180,15 @@ func c13Diamond() {
 				if verr := consensus.ValidateV2Transaction(ms, x); verr != nil {
 					var ids []string
 					for _, y := range set {
-						ids = append(ids, map[types.TransactionID]string{A.ID(): "A", B.ID(): "B", T.ID(): "T"}[y.ID()])
+						ids = append(ids, map[types.TransactionID]string{A.ID(): "A", B.ID(): "B", T.ID(): "T"}[y.ID()]+"")
 					}
 					run.Violate("c13:txset-order:diamond", fmt.Sprintf("%s: returned order %v, transaction %d is not valid after the ones before it: %v", where, ids, i, verr), map[string]any{"regime": string(reg), "order": order})
 					break
 				}
 				ms.ApplyV2Transaction(x)
+			}
+			if len(set) != len(pooled) {
+				run.Violate("c13:txset-incomplete:diamond", fmt.Sprintf("%s: %d transactions returned, the transaction has %d pooled ancestors", where, len(set), len(pooled)-1), map[string]any{"regime": string(reg), "order": order})
 			}
 		}
 		// basis older than the tip
@@ -457,8 +468,8 @@ func expectRebase(u *univ.Universe, s rebaseSet, t int) (verdict string, want []
 		c := tx.DeepCopy()
 		// judge(existsAtFork, existsAtTarget): element present at both -> must be rebased to the target's
 		// element; present at the fork point only -> spent/resolved on the way (not judged); present at the
-		// target only -> re-created on the other branch, which a proof update cannot follow (not judged);
-		// present at neither -> must be rejected.
+		// target only -> re-created on the other branch: judged for siacoin outputs of transactions (the update
+		// follows them like the pool does), not judged for delayed outputs, siafund outputs and contracts; present at neither -> must be rejected.
 		judge := func(atFork, atTarget bool, what string) (string, string) {
 			switch {
 			case atFork && atTarget:
@@ -484,7 +495,12 @@ func expectRebase(u *univ.Universe, s rebaseSet, t int) (verdict string, want []
 			}
 			_, af := Lf.SCEs[in.Parent.ID]
 			e, at := Lt.SCEs[in.Parent.ID]
-			if v, w := judge(af, at, "siacoin input"); v != "" {
+			// an output of a transaction that is confirmed on both branches (created above the fork point,
+			// existing at the target as well, same content) must come back with the target's proof. Delayed
+			// outputs (payouts) are in general different elements on the two branches - the maturity height is
+			// part of the element - and stay unjudged
+			sameElement := at && e.MaturityHeight == 0 && in.Parent.MaturityHeight == 0
+			if v, w := judge(af || sameElement, at, "siacoin input"); v != "" {
 				return v, nil, w
 			}
 			in.Parent.StateElement = e.StateElement.Copy()
